@@ -72,6 +72,11 @@ def in_domain(ant):
     return True
 
 
+# the finding `tapered-wire` is a bounded class: on tapered wires (neighbouring segments differing by the factor 2) the
+# balance is off by up to 2.2 % (950 generated structures); beyond TAPER_BOUND it is a violation all the same
+TAPER_BOUND = 0.04
+
+
 def structure_class(ant, loads, env=None):
     """classes of the known findings: unequal segment lengths / radii at a junction, insulated wires, branching
     junctions with segments longer than 1/15 wavelength"""
@@ -82,6 +87,9 @@ def structure_class(ant, loads, env=None):
         cls.append('junction-unequal-segments')
     if any(l[0] == 'coat' for l in loads):
         cls.append('insulated-wire')
+    # a tapered wire: neighbouring segments differ by the factor 2 (bounded class, see TAPER_BOUND)
+    if any(w.get('segtype') for w in ant['wires']):
+        cls.append('tapered-wire')
     # three or more wire ends meeting in one point with segments longer than 1/15 wavelength
     ends = {}
     for w in ant['wires']:
@@ -250,6 +258,9 @@ def replay(rp):
     if bad and lossy_excess_class(r):
         print('replay: in the known-finding class lossy-ground-field-exceeds-perfect-ground-field:', bad)
         bad = None
+    if bad and structure_class(rp['case']['ant'], rp['case']['loads'], rp['case'].get('env')) == ['tapered-wire'] and abs(r['dev']) <= TAPER_BOUND:
+        print('replay: in the known-finding class tapered-wire:', bad)
+        bad = None
     if not bad and r['identity'] > 1e-9:
         bad = 'source power differs from load dissipation plus matrix power by %.3g' % r['identity']
     print('replay ->', bad or 'property holds', {k: r[k] for k in ('dev', 'identity', 'cond')})
@@ -303,6 +314,9 @@ def run(ck):
                             % (fid, bad, case['ant']['family'], (r['P'] - r['loads'] - r['rad_model_ideal']) / r['app']))
             continue
         cls = [c for c in cls if c != 'low-horizontal-wire-over-real-ground']
+        if cls == ['tapered-wire'] and bad and abs(r['dev']) > TAPER_BOUND:
+            viol.append(dict(kind='balance', case=case, observed=bad + ' (tapered wires: more than the %.0f %% known for them)' % (100 * TAPER_BOUND)))
+            continue
         if cls:
             ck.count('in_known_finding_class')
             if bad:
@@ -321,7 +335,8 @@ def run(ck):
                       'ideal ground, one and two real media, radials; 1-3 sources with complex voltages on distinct pulses; no loads, '
                       'resistive, reactive and complex lumped loads on 1-4 pulses, skin effect. Asserted at 1.5 %: structures whose wires '
                       'all have the same segment length and radius (4 of 5 cases). Every fifth case has unequal segment lengths / radii '
-                      'at junctions or insulated wires: evaluated, reported as KNOWN-FINDING when over 1.5 %, not asserted')
+                      'at junctions or insulated wires: evaluated, reported as KNOWN-FINDING when over 1.5 %, not asserted; tapered wires '
+                      '(inverted V of two tapered legs, tapered monopoles) are asserted at 4 % (known finding between 1.5 % and 4 %)')
     ck.assumptions += ['sphere integral: 24-point Gauss-Legendre in cos(theta) x 32 uniform azimuths (patterns of structures below one '
                        'wavelength are band-limited well below that)',
                        'apparent source power = sum over sources of |V||I|/2']
